@@ -300,7 +300,8 @@ func (g *sesGen) step() {
 		if ss.transport == "polling" {
 			ss.reqs[g.nreq] = "post"
 			g.nreq++
-			g.add(fmt.Sprintf("ses post s%d t 1 %s", ss.ord, hx(g.encode(ss, pk))))
+			// one data request in four is sent without a declared length (a chunked upload: ContentLength -1)
+			g.add(fmt.Sprintf("ses post s%d t %d %s", ss.ord, btoi(g.r.rng.IntN(4) != 0), hx(g.encode(ss, pk))))
 		} else {
 			// one frame per packet
 			for _, p := range pk {
@@ -645,6 +646,7 @@ func monitorSession(r *Rec, g *sesGen, outs []string) {
 		}
 		if ss.closeReq && v.lastState != "closed" && g.now-ss.closeReqAt >= g.I+g.T+50 {
 			r.Violate("C12", "C12/not-closed-in-bounded-time/"+ss.transport, fmt.Sprintf("s%d: close requested at %d ms, still %s at %d ms (heartbeat bound %d ms)", ss.ord, ss.closeReqAt, v.lastState, g.now, g.I+g.T), all)
+			r.Violate("C03", "C03/left-open-without-close-event/"+ss.transport, fmt.Sprintf("s%d stopped being open at %d ms (Close) and at %d ms is %s with %d close events", ss.ord, ss.closeReqAt, g.now, v.lastState, v.closes), all)
 		}
 		if g.silenceEnd && v.lastState != "closed" && !ss.closeReq {
 			r.Violate("C07", "C07/silent-peer-not-closed/"+ss.transport, fmt.Sprintf("s%d is %s after %d ms of silence (ping interval %d, timeout %d)", ss.ord, v.lastState, 30000+g.I+g.T+100, g.I, g.T), all)
